@@ -34,7 +34,7 @@ def cases(draw, name, max_len):
     case = draw(base_case(name, max_len=max_len))
     for src in case["srcs"]:
         src["fl"] = draw(st.sampled_from(["list", "iter", "agen", "list", "iter", "agen", "tuple", "tuplesub", "seq",
-                                           "reiter", "areiter", "aproxy", "sgen", "sgen"]))
+                                           "reiter", "areiter", "aproxy", "sgen", "sgen", "ringlist"]))
         src["falsy"] = draw(st.integers(0, 3)) == 0  # (class-based flavours only: the object is falsy)
     for spec in case["fns"].values():
         spec["fl"] = draw(st.sampled_from(["def", "async", "def", "async", "eqobj", "unhashobj", "aeqobj"]))
@@ -47,7 +47,7 @@ def cases_large(draw, name):
     case = draw(base_case(name, max_len=30, min_len=12))
     for src in case["srcs"]:
         src["fl"] = draw(st.sampled_from(["list", "iter", "agen", "list", "iter", "agen", "tuple", "tuplesub", "seq",
-                                           "reiter", "areiter", "aproxy", "sgen", "sgen"]))
+                                           "reiter", "areiter", "aproxy", "sgen", "sgen", "ringlist"]))
         src["falsy"] = draw(st.integers(0, 3)) == 0  # (class-based flavours only: the object is falsy)
     for spec in case["fns"].values():
         spec["fl"] = draw(st.sampled_from(["def", "async", "def", "async", "eqobj", "unhashobj", "aeqobj"]))
@@ -152,12 +152,96 @@ def classify(case):
     return out
 
 
+# ---- range objects as input (a sequence with closed-form length, sum, min, max ...) ---------------------------
+
+
+class Sat:
+    """a number-like start value whose + is NOT associative with ints: it saturates at a cap"""
+
+    def __init__(self, v, cap):
+        self.v, self.cap = v, cap
+
+    def __add__(self, other):
+        if isinstance(other, Sat):
+            other = other.v
+        return Sat(min(self.v + other, self.cap), self.cap)
+
+    __radd__ = __add__
+
+    def __eq__(self, other):
+        return isinstance(other, Sat) and (self.v, self.cap) == (other.v, other.cap)
+
+    def __hash__(self):
+        return hash((self.v, self.cap))
+
+    def __repr__(self):
+        return f"Sat({self.v},{self.cap})"
+
+
+@st.composite
+def range_cases(draw):
+    start = draw(st.integers(-4, 6))
+    delta = draw(st.integers(-8, 8))
+    stop = start + delta
+    step = draw(st.sampled_from([1, 1, 2, 3])) * (1 if delta >= 0 or draw(st.integers(0, 5)) == 0 else -1)
+    tool = draw(st.sampled_from(["sum", "sum", "sum", "sum", "list", "tuple", "set", "min", "max", "sorted", "any", "all",
+                                 "nlargest", "nsmallest", "reduce-sub"]))
+    return {"tool": tool, "r": [start, stop, step], "flavour": draw(st.sampled_from(["range", "range", "async"])),
+            "start": draw(st.sampled_from([None, ["i", 3], ["sat", 4, 5], ["sat", 0, 3], ["sat", 2, 3], ["sat", 4, 5],
+                                           ["f", 0.5], ["F", 1, 3]])),
+            "n": draw(st.integers(0, 4))}
+
+
+def check_range(case):
+    import builtins, functools, heapq, operator
+    from fractions import Fraction
+    from ..driver import Ctx, run
+    import asyncstdlib as a
+
+    r = range(*case["r"])
+    sv = case["start"]
+    start = None if sv is None else (sv[1] if sv[0] in ("i", "f") else Fraction(sv[1], sv[2]) if sv[0] == "F"
+                                     else Sat(sv[1], sv[2]))
+    tool = case["tool"]
+
+    async def agen():
+        for x in r:
+            yield x
+
+    source = r if case["flavour"] == "range" else agen()
+    ref = {"sum": lambda it: builtins.sum(it) if start is None else builtins.sum(it, start),
+           "list": builtins.list, "tuple": builtins.tuple, "set": builtins.set,
+           "min": lambda it: builtins.min(it, default="empty"), "max": lambda it: builtins.max(it, default="empty"),
+           "sorted": lambda it: builtins.sorted(it, reverse=True), "any": builtins.any, "all": builtins.all,
+           "nlargest": lambda it: heapq.nlargest(case["n"], it), "nsmallest": lambda it: heapq.nsmallest(case["n"], it),
+           "reduce-sub": lambda it: functools.reduce(operator.sub, it, 100)}[tool]
+    lib = {"sum": lambda it: a.sum(it) if start is None else a.sum(it, start),
+           "list": a.list, "tuple": a.tuple, "set": a.set,
+           "min": lambda it: a.min(it, default="empty"), "max": lambda it: a.max(it, default="empty"),
+           "sorted": lambda it: a.sorted(it, reverse=True), "any": a.any, "all": a.all,
+           "nlargest": lambda it: a.nlargest(it, case["n"]), "nsmallest": lambda it: a.nsmallest(it, case["n"]),
+           "reduce-sub": lambda it: a.reduce(operator.sub, it, 100)}[tool]
+    try:
+        want = ("return", type(ref(r)).__name__, repr(ref(r)))
+    except Exception as exc:
+        want = ("raise", type(exc).__name__)
+    outcome = run(Ctx("a"), lib(source))
+    got = ("return", type(outcome[1]).__name__, repr(outcome[1])) if outcome[0] == "return" else \
+        ("raise", type(outcome[1]).__name__)
+    if got != want:
+        raise Violation(f"C02/{tool.split('-')[0]}/wrong-result", f"range{tuple(case['r'])} start={start!r}: async={got} "
+                                                                   f"stdlib={want}")
+    return None
+
+
 def shards(tier):
     large = [Shard(f"large-{name}", check, strategy=cases_large(name), n=400, nontrivial=nontrivial,
                    classify=classify, thorough_mult=15)
              for name in ("nlargest", "nsmallest", "sorted", "min", "max", "reduce", "sum")]
     large += [Shard(f"big-numbers-{i}", check, strategy=big_number_cases(), n=15, nontrivial=lambda c: True,
                     thorough_mult=8) for i in range(2)]
+    large.append(Shard("range-sources", check_range, strategy=range_cases(), n=800,
+                       nontrivial=lambda c: len(range(*c["r"])) >= 2, thorough_mult=10))
     return large + [
         Shard(name, check, strategy=cases(name, 8 if tier == "quick" else 12), n=1200,
               nontrivial=nontrivial, classify=classify, thorough_mult=25)
